@@ -237,11 +237,8 @@ def _df_fillna(df, method = None, axis = 0, limit = None):
             if len(res.shape)==2:
                 nonan = nonan.max(axis=1)
             if m == 'fnna':
-                nonan = nonan[nonan.values]
-                if len(nonan):
-                    res = res[nonan.index[0]:]
-                else:
-                    res = res.iloc[:0]
+                valid = np.asarray(nonan.values, dtype = bool)
+                res = res.iloc[valid.argmax():] if valid.any() else res.iloc[:0] # by position: res[label:] is a positional slice on an integer index
             elif m == 'nona':
                 res = res[nonan.values]
         else:
